@@ -1,4 +1,5 @@
 """Semantics of individual go/ssa instructions."""
+import re
 import z3
 from .world import OutOfSubset, LValue, FuncVal
 from .symex import load_lvalue, store_lvalue, well_typed
@@ -193,11 +194,52 @@ def store_clauses(X, lv, v, ins):
     """`store T.f [label] expr` clauses of the function under verification: checked at every direct store to field f
     of a T object, with target / newval / oldval bound to the object, the stored value and the value being overwritten"""
     c = X.contract if X.top else None
-    if c is None or not c.get('stores') or lv.kind != 'fld':
+    if c is None or not c.get('stores'):
         return
     from .speceval import SpecEval, SV, SpecError, resolve_type
+    if lv.kind in ('cell', 'idx'):
+        # store cell(p) / store elems(s): every store through the pointer p / into the backing array of the slice s
+        # (newval = the value stored); the store may or may not hit that location, the clause is asked under the
+        # condition that it does
+        for (target, lab, ast, txt) in c['stores']:
+            m_ = re.match(r'^(cell|elems)\((\w+)\)$', target)
+            if not m_ or (m_.group(1) == 'cell') != (lv.kind == 'cell'):
+                continue
+            names = X.resolve_names(X.block, upto_idx=X.cur_idx)
+            env = X.spec_env(names)
+            if m_.group(2) not in env:
+                continue
+            tv = env[m_.group(2)]
+            if lv.kind == 'cell':
+                ty_, ref_ = lv.data
+                uk_, e_ = X.w.prog.under(tv.ty) if isinstance(tv, SV) else (None, {})
+                if e_.get('kind') != 'ptr' or e_.get('elem') != ty_:
+                    continue
+                hit = ref_ == tv.t
+            else:
+                el_, s_, i_ = lv.data
+                uk_, e_ = X.w.prog.under(tv.ty) if isinstance(tv, SV) else (None, {})
+                if e_.get('kind') != 'slice' or e_.get('elem') != el_:
+                    continue
+                hit = X.w.Slice.arr(s_) == X.w.Slice.arr(tv.t)
+            env['newval'] = SV(v, lv.data[0]) if z3.is_expr(v) else tv
+            ev = SpecEval(X.V, X.pkg, env, X.heap, old=X.top_entry_heap())
+            key = ('store:' + target, lab)
+            X.V.call_clause_seen = getattr(X.V, 'call_clause_seen', {})
+            X.V.call_clause_seen.setdefault(key, 0)
+            try:
+                X.oblige('store', z3.Implies(hit, ev.boolean(ast)), ins.get('pos', ''), label='%s.%s' % (target, lab or '0'), text=txt)
+                X.V.call_clause_seen[key] += 1
+            except SpecError as e:
+                if 'unknown identifier' not in str(e):
+                    raise OutOfSubset('store clause for %s in %s: %s' % (target, X.fnkey, e))
+        return
+    if lv.kind != 'fld':
+        return
     sname, ref, fname = lv.data
     for (target, lab, ast, txt) in c['stores']:
+        if '(' in target:
+            continue
         tn, fn_ = target.rsplit('.', 1)
         try:
             ty = resolve_type(X.w, tn, X.pkg)
